@@ -28,12 +28,14 @@ RULE = (
     " that share those buffers: dist(metric, a, b) over all 47 identifiers via the registry or via OPF(distance=..)"
     " .distance_fn with arguments that are free vectors, row views of the matrices or the same object twice;"
     " fit / fit+predict / get_distances of the four model kinds; pre_compute_distance; prune; split;"
-    " split_with_index; merge; normalize; opf_accuracy; confusion_matrix; purity. Non-trivial: >= 2 calls touched the"
+    " split_with_index; merge; normalize; opf_accuracy; confusion_matrix; purity; the caller rewriting one of its own"
+    " buffers in place between calls. Arm `fresh` re-evaluates the last calls of the history in a fresh interpreter."
+    " Non-trivial: >= 2 calls touched the"
     " same base buffer; distinct = distinct (op kind, metric/model, argument references) sequences by 64-bit hash."
 )
 STATE_MEASURE = "distinct (op kind, metric or model kind, data style, alias pattern) tuples that were followed by another call on the same base buffer"
 REAL = ["opfython.math.distance (all 47 metrics, numba-jitted, incl. the avoid_zero_division wrapper)", "OPF/SupervisedOPF/SemiSupervisedOPF/KNNSupervisedOPF/UnsupervisedOPF fit/predict/get_distances/prune", "math.general, stream.splitter", "all from the current working tree"]
-STUBBED = ["logging disabled; nothing else (the twin world is the same library applied to deep copies)"]
+STUBBED = ["logging disabled; nothing else (the twin world is the same library applied to deep copies; the `fresh` arm re-evaluates calls in a real second interpreter)"]
 ASSUMPTIONS = [
     "Caller arrays are float64 feature arrays and int64 label arrays.",
     "SupervisedOPF.learn is excluded here: exchanging rows of the caller's arrays is its documented purpose (C17).",
@@ -43,10 +45,15 @@ ASSUMPTIONS = [
 KINDS = ("supervised", "semi", "knn", "unsup")
 
 
+EXPECTED_PROBES = ['persistent_model_reused', 'persistent_model_predicts', 'caller_supplied_distance_matrix', 'result_compared_with_fresh_interpreter', 'call_raises_consistently', 'caller_rewrote_own_buffer_in_place', 'decorated_metric_on_exact_zero', 'model_fitted_on_buffer_with_history', 'same_array_as_both_arguments', 'tiny_magnitudes_present']
+
+SLOW_ARMS = ("fresh",)
+
+
 def arms(tier):
     if tier == "thorough":
-        return [("mixed", 800_000), ("dist", 800_000)]
-    return [("mixed", 27_000), ("dist", 27_000)]
+        return [("mixed", 800_000), ("dist", 800_000), ("fresh", 12_000)]
+    return [("mixed", 27_000), ("dist", 27_000), ("fresh", 320)]
 
 
 def hist_slice(tier):
@@ -74,6 +81,14 @@ def gen_case(rng, arm, tier, k=0):
         style = rng.choice(("zeros", "zeros", "positive", "generic"))
         vecs.append({"style": style, "v": [gen_value(rng, style) for _ in range(d)]})
     case = {"d": d, "mats": mats, "vecs": vecs}
+    # two persistent model objects that are re-used across calls (max_k may exceed what a small
+    # matrix supports: such a fit raises, consistently, and the object is used again afterwards)
+    case["slots"] = [
+        {"kind": rng.choice(KINDS), "metric": rng.choice(sorted(REAL_DOMAIN)), "max_k": rng.randint(1, 9), "min_k": 1}
+        for _ in range(2)
+    ]
+    for m_ in mats:
+        m_["pre_metric"] = rng.choice(("euclidean", "manhattan", "squared_euclidean", "chebyshev", "log_squared_euclidean"))
 
     def ref():
         r = rng.random()
@@ -117,9 +132,16 @@ def gen_case(rng, arm, tier, k=0):
             n = len(mats[k]["X"])
             mk = rng.randint(1, min(4, n - 1))
             ops.append([rng.choice(("fit", "fitpredict", "fitpredict", "getdist")), kind, metric, k, k2, mk, rng.randint(1, mk), rng.random() < 0.5])
-        elif r < 0.75:
+        elif r < 0.73:
             k = rng.randrange(len(mats))
             ops.append(["precompute", metric_for([mats[k]["style"]]), k])
+        elif r < 0.75 or (arm == "mixed" and rng.random() < 0.10):
+            k = rng.randrange(len(mats))
+            n = len(mats[k]["X"])
+            mk = rng.randint(1, min(4, n - 1))
+            ops.append(["prefit", rng.choice(("supervised", "knn", "unsup")), k, mk, rng.randint(1, mk), rng.random() < 0.6])
+        elif arm == "mixed" and rng.random() < 0.12:
+            ops.append([rng.choice(("mfit", "mfit", "mpredict")), rng.randrange(2), rng.randrange(len(mats)), rng.randrange(len(mats)), rng.random() < 0.5])
         elif r < 0.80:
             k, k2 = rng.randrange(len(mats)), rng.randrange(len(mats))
             ops.append(["prune", metric_for([mats[k]["style"], mats[k2]["style"]]), k, k2, rng.randint(1, 3)])
@@ -140,19 +162,47 @@ def gen_case(rng, arm, tier, k=0):
 
 class World:
     def __init__(self, case):
+        if "labs" in case:  # explicit state (restart server)
+            self.mats = [arr(m).reshape(len(m), case["d"]) for m in case["mats"]]
+            self.labs = [iarr(y) for y in case["labs"]]
+            self.vecs = [np.array(v, dtype=np.float64) for v in case["vecs"]]
+            self.pres = [arr(p_).reshape(len(p_), len(p_)) for p_ in case.get("pres", [])]
+            self.slot_specs = case.get("slots", [])
+            self.new_models()
+            return
         self.mats = [arr(m["X"]).reshape(len(m["X"]), case["d"]) for m in case["mats"]]
         self.labs = [iarr(m["Y"]) for m in case["mats"]]
         self.vecs = [np.array(v["v"], dtype=np.float64) for v in case["vecs"]]
+        # caller-owned distance matrices (one per feature matrix), handed to models through the
+        # public pre_distances setter
+        self.pres = []
+        for m, X in zip(case["mats"], self.mats):
+            fn = B.distance.DISTANCES[m.get("pre_metric", "euclidean")]
+            n = len(X)
+            P = np.zeros((n, n))
+            for i in range(n):
+                for j in range(n):
+                    P[i, j] = fn(X[i].copy(), X[j].copy())
+            self.pres.append(P)
+        self.slot_specs = case.get("slots", [])
+        self.new_models()
 
     def clone(self):
         w = World.__new__(World)
         w.mats = [m.copy() for m in self.mats]
         w.labs = [y.copy() for y in self.labs]
         w.vecs = [v.copy() for v in self.vecs]
+        w.pres = [p_.copy() for p_ in self.pres]
+        w.slot_specs = self.slot_specs
+        w.new_models()
         return w
 
+    def new_models(self):
+        self.models = [make_model(sp["kind"], sp["metric"], sp["max_k"], sp["min_k"]) for sp in self.slot_specs]
+        self.fitted = [None] * len(self.models)
+
     def buffers(self):
-        return [("mat%d" % i, m) for i, m in enumerate(self.mats)] + [("lab%d" % i, y) for i, y in enumerate(self.labs)] + [("vec%d" % i, v) for i, v in enumerate(self.vecs)]
+        return [("mat%d" % i, m) for i, m in enumerate(self.mats)] + [("lab%d" % i, y) for i, y in enumerate(self.labs)] + [("vec%d" % i, v) for i, v in enumerate(self.vecs)] + [("pre%d" % i, p_) for i, p_ in enumerate(self.pres)]
 
     def get(self, r):
         if r[0] == "vec":
@@ -171,6 +221,8 @@ class World:
 def canon(x):
     if isinstance(x, np.ndarray):
         return abits(x)
+    if isinstance(x, tuple) and x and isinstance(x[0], tuple) and x[0] and x[0][0] == "nodes":
+        return x  # already a subgraph state
     if isinstance(x, (tuple, list)):
         return tuple(canon(v) for v in x)
     if isinstance(x, (float, np.floating)):
@@ -228,6 +280,49 @@ def execute(op, w, scratch, tag):
             return (m.get_distances(), m.get_distances(normalize=True))
         p = m.predict(w.mats[k2])
         return (m, p)
+    if kind == "prefit":
+        _, mkind, k, max_k, min_k, normalize = op
+        k %= len(w.mats)
+        X, Y, P = w.mats[k], w.labs[k], w.pres[k]
+        n = len(X)
+        max_k = max(1, min(max_k, n - 1))
+        min_k = max(1, min(min_k, max_k))
+        m = make_model(mkind, "euclidean", max_k, min_k)
+        m.pre_computed_distance = True
+        m.pre_distances = P  # the caller's own matrix
+        I = np.arange(n)
+        if mkind == "knn":
+            m.fit(X, Y, X, Y, I, I)
+        else:
+            m.fit(X, Y, I)
+        g = m.get_distances(normalize)
+        p = m.predict(X, I)
+        sg = m.subgraph
+        m.pre_distances = None
+        return (sg_state(sg), g, p)
+    if kind in ("mfit", "mpredict"):
+        _, slot, k, k2, use_labels = op
+        slot %= len(w.models)
+        k %= len(w.mats)
+        k2 %= len(w.mats)
+        m = w.models[slot]
+        spec = w.slot_specs[slot]
+        if kind == "mfit":
+            X, Y = w.mats[k], w.labs[k]
+            w.fitted[slot] = None
+            if spec["kind"] == "supervised":
+                m.fit(X, Y)
+            elif spec["kind"] == "semi":
+                m.fit(X, Y, w.mats[k2])
+            elif spec["kind"] == "knn":
+                m.fit(X, Y, w.mats[k2], w.labs[k2])
+            else:
+                m.fit(X, Y if use_labels else None)
+            w.fitted[slot] = (k, k2, use_labels)
+            return m
+        if w.fitted[slot] is None:
+            return "model not fitted"
+        return m.predict(w.mats[k2])
     if kind == "precompute":
         _, metric, k = op
         path = os.path.join(scratch, "pre_%s.txt" % tag)
@@ -262,7 +357,17 @@ def execute(op, w, scratch, tag):
     raise ValueError(op)
 
 
+def sg_state(sg):
+    from ..common import subgraph_state
+
+    return subgraph_state(sg)
+
+
 def touched(op, w):
+    if op[0] == "prefit":
+        return {"mat%d" % (op[2] % len(w.mats)), "pre%d" % (op[2] % len(w.mats))}
+    if op[0] in ("mfit", "mpredict"):
+        return {"mat%d" % (op[2] % len(w.mats)), "mat%d" % (op[3] % len(w.mats))}
     if op[0] == "mutate":
         return {w.bufname(op[1])}
     if op[0] == "dist":
@@ -281,6 +386,10 @@ def touched(op, w):
 def op_label(op):
     if op[0] == "mutate":
         return ("mutate",)
+    if op[0] == "prefit":
+        return ("prefit", op[1])
+    if op[0] in ("mfit", "mpredict"):
+        return (op[0], op[1])
     if op[0] == "dist":
         return ("dist", op[1], op[2])
     if op[0] in ("fit", "fitpredict", "getdist"):
@@ -321,6 +430,13 @@ def run_case(case):
             if op[0] == "mutate":
                 live.mutate(op[1], op[2], op[3])
                 shadow.mutate(op[1], op[2], op[3])
+                if op[1][0] == "row":
+                    hit = op[1][1] % len(live.mats)
+                    for si, ft in enumerate(live.fitted):
+                        # a fitted model aliases the caller's rows (Node.features are views): once
+                        # the caller rewrites them the model is the caller's business, not C07's
+                        if ft is not None and hit in (ft[0], ft[1]):
+                            live.fitted[si] = None
                 pristine = [(name, abits(b)) for name, b in shadow.buffers()]
                 snapshots.append(shadow.clone())
                 bump(out.probes, "caller_rewrote_own_buffer_in_place")
@@ -329,6 +445,11 @@ def run_case(case):
                 norm.append((lab, tuple(op[1:])))
                 continue
             mclass = metric_class(lab[1]) if len(lab) > 1 and lab[1] in ALL_METRICS else (metric_class(lab[2]) if len(lab) > 2 else "none")
+            prep = None
+            if op[0] == "mpredict" and live.models:
+                ft = live.fitted[op[1] % len(live.models)]
+                if ft is not None:
+                    prep = ["mfit", op[1], ft[0], ft[1], ft[2]]
             ok, res, exc = attempt(op, live, scratch, "live")
             # ---- I1: caller buffers untouched
             for (name, want), (_, buf) in zip(pristine, live.buffers()):
@@ -348,7 +469,11 @@ def run_case(case):
                     )
             # ---- I2 is decided after the history (below): evaluating the twin in between would
             # itself perturb whatever hidden state the library keeps from call to call
-            pending.append((k, op, lab, mclass, ok, canon(res) if ok else None, exc, len(snapshots) - 1))
+            pending.append((k, op, lab, mclass, ok, canon(res) if ok else None, exc, len(snapshots) - 1, prep))
+            if op[0] in ("mfit", "mpredict"):
+                bump(out.probes, "persistent_model_reused" if op[0] == "mfit" else "persistent_model_predicts")
+            if op[0] == "prefit":
+                bump(out.probes, "caller_supplied_distance_matrix")
             # ---- probes / measures
             t = touched(op, live)
             for name in t:
@@ -368,8 +493,10 @@ def run_case(case):
                 bump(out.probes, "model_fitted_on_buffer_with_history")
             norm.append((lab, tuple(map(tuple_or, op[3:5])) if op[0] == "dist" else tuple(op[1:])))
         # ---- I2: every recorded result equals the same call in a world without history
-        for k, op, lab, mclass, ok, a, exc, ver in pending:
+        for k, op, lab, mclass, ok, a, exc, ver, prep in pending:
             twin = snapshots[ver].clone()
+            if prep is not None:
+                attempt(prep, twin, scratch, "twin")  # a fresh model fitted on the same arguments
             ok2, res2, exc2 = attempt(op, twin, scratch, "twin")
             if ok != ok2 or (not ok and type(exc).__name__ != type(exc2).__name__):
                 e = exc if not ok else exc2
@@ -391,6 +518,22 @@ def run_case(case):
                     )
                 )
             log.add(k, lab, dig(a))
+        # ---- restart arm: the same calls in a fresh interpreter (cold process state, other
+        # PYTHONHASHSEED and cwd) must give bit-identical results
+        if case.get("arm") == "fresh":
+            from . import c19
+
+            sample = [pn for pn in pending if pn[4] and pn[1][0] not in ("precompute", "mfit", "mpredict")][-6:]
+            for k, op, lab, mclass, ok, a, exc, ver, prep in sample:
+                snap = snapshots[ver]
+                req = {"c07": True, "d": case["d"], "mats": [m.tolist() for m in snap.mats], "labs": [y.tolist() for y in snap.labs], "vecs": [v.tolist() for v in snap.vecs], "pres": [p_.tolist() for p_ in snap.pres], "slots": case.get("slots", []), "op": op}
+                rep = c19.restart_query(req)
+                bump(out.faults, "restart_fresh_interpreter")
+                if "error" in rep:
+                    raise Stop(violation("restart-raised:%s" % rep.get("type"), "op #%d %s works in the running process but raises in a fresh interpreter: %s" % (k, op, rep["error"][-300:]), op=lab[0], metric_class=mclass))
+                if rep["digest"] != dig(a):
+                    raise Stop(violation("result-depends-on-process-state", "op #%d %s returns a different value in a fresh interpreter than in the running process" % (k, op), op=lab[0], metric_class=mclass))
+                bump(out.probes, "result_compared_with_fresh_interpreter")
         out.digest = log.hexdigest()
         out.hist = h64((case["d"], tuple(norm)))
         out.nontrivial = shared >= 1
